@@ -6,6 +6,7 @@ From Coq Require Import Permutation.
 From Sakura.Model Require Import Base Cursor Length Event Song Token LoopMachine LexCore RunCore Tie Compile.
 From Sakura.Spec Require Import LenSpec NoteSem LoopSpec.
 From Sakura.Proofs Require Import IdleP LengthP LoopP BlockP NoteSimDefs NoteSimP NoteStructP.
+From Sakura.Proofs Require Import FollowP.
 Open Scope Z_scope.
 
 (* ------------------------------------------------------------------------------------------------ *)
@@ -684,7 +685,8 @@ Qed.
 (* the state exec() starts from in Compile.run_source: Song::new with the lexer's time base, log and variables *)
 Lemma R_after_lex ls : lx_timebase ls = 96 -> R (song_after_lex ls) perf0.
 Proof.
-  intros H. unfold song_after_lex, song_with_ls. destruct R_init as (A1 & A2 & A3 & A4 & A5 & A6 & A7 & A8 & A9 & A10 & A11 & A12 & A13).
+  intros H. unfold song_after_lex, song_with_ls. rewrite H. change (s_timebase song_new) with 96. rewrite map_follow_same.
+  destruct R_init as (A1 & A2 & A3 & A4 & A5 & A6 & A7 & A8 & A9 & A10 & A11 & A12 & A13).
   unfold R. cbn [s_tracks s_cur s_timebase s_key_flag s_key_shift s_use_key_shift s_v_add s_harmony_flag
     s_harmony_events s_octave_once s_break_flag s_set_rhythm s_set_vars s_set_logs s_set_timebase].
   repeat split; assumption.
